@@ -385,6 +385,11 @@ Proof. unfold half. apply Qclt_alt. reflexivity. Qed.
 Lemma half_half : half + half = 1.
 Proof. apply Qc_is_canon. reflexivity. Qed.
 
+Lemma two_neq0 : (1 + 1 : Qc) <> 0.
+Proof. intro H. apply (f_equal (fun x : Qc => qeqb x 0)) in H. vm_compute in H. discriminate. Qed.
+Lemma half_inv : half = / (1 + 1).
+Proof. apply Qc_is_canon. reflexivity. Qed.
+
 Lemma Qclt_sub_pos (a b : Qc) : a < b <-> 0 < b - a.
 Proof. rewrite (Qclt_minus_iff a b). unfold Qcminus. reflexivity. Qed.
 
@@ -490,6 +495,38 @@ Proof.
                             then nth (j0 - fa) (nth d (active_deriv kv p x d) []) 0 else 0).
   rewrite (nth_indep _ 0 (f 0%nat)) by (rewrite map_length, seq_length; exact Hj).
   rewrite map_nth. rewrite seq_nth by exact Hj. reflexivity.
+Qed.
+
+(* layout of the Kronecker product *)
+Lemma nth_flat_map_uniform {X Y} (f : X -> list Y) n (d : Y) (dx : X) : forall (l : list X) i j,
+  (forall x, In x l -> length (f x) = n) -> (i < length l)%nat -> (j < n)%nat ->
+  nth (i * n + j) (flat_map f l) d = nth j (f (nth i l dx)) d.
+Proof.
+  induction l as [|x l IH]; intros i j Hlen Hi Hj; [cbn in Hi; lia|].
+  cbn [flat_map]. destruct i as [|i].
+  - cbn [Nat.mul Nat.add nth]. apply app_nth1. rewrite Hlen by (left; reflexivity). exact Hj.
+  - rewrite app_nth2; rewrite (Hlen x (or_introl eq_refl)); [|lia].
+    replace (S i * n + j - n)%nat with (i * n + j)%nat by lia.
+    cbn [nth]. apply IH; [intros y Hy; apply Hlen; right; exact Hy|cbn in Hi; lia|exact Hj].
+Qed.
+
+(* scipy.sparse.kron layout: entry (i1*nB + i2, j1*mB + j2) of kron(A,B) is A[i1,j1]*B[i2,j2] *)
+Lemma kron_get_l (A B : list (list Qc)) mB i1 i2 j1 j2 :
+  (forall rb, In rb B -> length rb = mB) ->
+  (i1 < length A)%nat -> (i2 < length B)%nat -> (j1 < length (nth i1 A []))%nat -> (j2 < mB)%nat ->
+  mget (kron A B) (i1 * length B + i2) (j1 * mB + j2) = mget A i1 j1 * mget B i2 j2.
+Proof.
+  intros HB Hi1 Hi2 Hj1 Hj2. unfold mget, kron.
+  rewrite (nth_flat_map_uniform _ (length B) [] [] A i1 i2); [|intros; apply map_length|exact Hi1|exact Hi2].
+  set (g := fun rb : list Qc => flat_map (fun a : Qc => map (fun b : Qc => a * b) rb) (nth i1 A [])).
+  rewrite (nth_indep _ [] (g [])) by (rewrite map_length; exact Hi2).
+  rewrite map_nth. unfold g.
+  assert (Hrb : length (nth i2 B []) = mB) by (apply HB; apply nth_In; exact Hi2).
+  rewrite (nth_flat_map_uniform _ mB 0 0 (nth i1 A []) j1 j2);
+    [|intros; rewrite map_length; exact Hrb|exact Hj1|exact Hj2].
+  set (a := nth j1 (nth i1 A []) 0).
+  rewrite (nth_indep _ 0 (a * 0)) by (rewrite map_length, Hrb; exact Hj2).
+  rewrite (map_nth (fun b : Qc => a * b)). reflexivity.
 Qed.
 
 (* ------------------------------------------------------------------ *)
